@@ -210,9 +210,9 @@ func (c *SMTCtx) zeroOf(t types.Type) string {
 		}
 		return "0"
 	case *types.Slice:
-		return "slice_nil"
+		return "(mk_slice 0 0 0 0)"
 	case *types.Interface:
-		return "iface_nil"
+		return "(mk_iface 0 0)"
 	case *types.Struct:
 		n := c.structName(t)
 		if u.NumFields() == 0 {
